@@ -53,6 +53,12 @@ type TCPEnd struct {
 	Reads    int
 	Faults   []WriteFault
 	LostWritten int // bytes accepted from this end's writer after the peer had closed (answered with RST: never delivered)
+
+	// flow control: an actor end that does not read for a while (Stall). Until it reads again it takes `window` bytes
+	// (its receive buffer plus the sender's send buffer); a write of the program that does not fit blocks for the rest.
+	stalledUntil time.Time
+	window       int
+	unread       int
 	WriteErr int // number of failed writes on this end
 	FirstFail int // index of the first failed write (-1: none)
 
@@ -626,6 +632,8 @@ type writeOp struct {
 	g    string
 	n    int
 	err  error
+	rest []byte    // what a stalled peer's window did not take yet: the write blocks for it
+	em   *Emission // this write's emission (grows as the rest is accepted)
 }
 
 func (o *writeOp) Ready() bool { return true }
@@ -698,6 +706,27 @@ func (o *writeOp) Do() {
 			return
 		}
 	}
+	if p := e.Peer; p.stalled() {
+		room := p.window - p.unread
+		if room < 0 {
+			room = 0
+		}
+		if room < len(o.data) {
+			// the stalled peer's window takes only the first `room` bytes now; the caller blocks for the rest
+			n.Fired["tcp-write-blocked-by-stalled-peer"]++
+			n.event("tcp-write-blocks", e.Local.String(), e.Remote.String(), e.ID, fmt.Sprintf("%d of %d", room, len(o.data)))
+			p.unread += room
+			em.Data = append([]byte(nil), o.data[:room]...)
+			e.Written = append(e.Written, o.data[:room]...)
+			n.K.HashBytes(o.data[:room])
+			e.deliver(o.data[:room])
+			o.n = room
+			o.rest = o.data[room:]
+			o.em = em
+			return
+		}
+		p.unread += len(o.data)
+	}
 	em.Data = o.data
 	e.Written = append(e.Written, o.data...)
 	n.K.HashBytes(o.data)
@@ -708,6 +737,61 @@ func (o *writeOp) Do() {
 	o.n = accept
 }
 func (o *writeOp) OpName() string { return "write-tcp" }
+
+func (e *TCPEnd) stalled() bool { return !e.stalledUntil.IsZero() && time.Now().Before(e.stalledUntil) }
+
+// Stall: the actor end does not read for d (a peer that is busy, swapped out, or whose application hangs). Until it
+// reads again it takes `window` more bytes; writes of the program beyond that block - until the peer reads again, the
+// writer's deadline passes (the write then reports how much it wrote, and a timeout), or the connection ends.
+func (e *TCPEnd) Stall(d time.Duration, window int) {
+	e.stalledUntil = time.Now().Add(d)
+	e.window = window
+	e.unread = 0
+	e.n.Fired["tcp-peer-stalled"]++
+	e.n.event("tcp-peer-stalls", e.Local.String(), e.Remote.String(), e.ID, fmt.Sprintf("%v window=%d", d, window))
+	e.n.K.After(d, fmt.Sprintf("tcp-peer-reads-again conn=%d", e.ID), func() {
+		e.stalledUntil = time.Time{}
+		e.unread = 0
+	})
+}
+
+// writeWaitOp: the blocked remainder of a write.
+type writeWaitOp struct{ w *writeOp }
+
+func (o *writeWaitOp) Ready() bool {
+	e := o.w.e
+	return e.closed || e.reset || !e.Peer.stalled() || (!e.wdl.IsZero() && !time.Now().Before(e.wdl))
+}
+func (o *writeWaitOp) Do() {
+	w := o.w
+	e := w.e
+	n := e.n
+	switch {
+	case e.closed:
+		w.err = &net.OpError{Op: "write", Net: "tcp", Err: net.ErrClosed}
+		w.em.Err = "closed-while-blocked"
+	case e.reset:
+		w.err = &net.OpError{Op: "write", Net: "tcp", Err: syscall.ECONNRESET}
+		w.em.Err = "reset-while-blocked"
+	case !e.Peer.stalled():
+		// the peer reads again: the rest goes through
+		w.em.Data = append(w.em.Data, w.rest...)
+		e.Written = append(e.Written, w.rest...)
+		n.K.HashBytes(w.rest)
+		e.deliver(w.rest)
+		w.n += len(w.rest)
+		w.rest = nil
+		return
+	default:
+		// the writer's deadline passed: part of the data is on the stream, the connection is still open
+		w.err = &net.OpError{Op: "write", Net: "tcp", Err: os.ErrDeadlineExceeded}
+		w.em.Err = "write-deadline-after-partial-write"
+		n.Fired["write-deadline-after-partial-write"]++
+		n.event("tcp-write-timeout", e.Local.String(), e.Remote.String(), e.ID, fmt.Sprintf("after %d bytes", w.n))
+	}
+	w.rest = nil
+}
+func (o *writeWaitOp) OpName() string { return "write-tcp-blocked" }
 
 //go:norace
 func (c *TCPConn) Write(b []byte) (int, error) {
@@ -721,6 +805,10 @@ func (c *TCPConn) Write(b []byte) (int, error) {
 	}
 	op := &writeOp{e: c.e, data: cloneBytes(b), g: name}
 	simrt.Trap(op, true)
+	if len(op.rest) > 0 && op.err == nil {
+		armDeadlineWake(c.e.n, c.e.wdl)
+		simrt.Trap(&writeWaitOp{op}, true)
+	}
 	return op.n, cloneErr(op.err)
 }
 
